@@ -12,6 +12,20 @@ TB_A = ("Trusted: CPython operator dispatch on engine.forksym.Lin, z3 linear ari
         "Stubs: tqdm -> identity, stderr -> sink.")
 
 CHECKS = {
+    "C08": dict(
+        technique="z3 SAT specification of binary refinements (laminar clade families) deciding completeness of binarize; bounded symbolic execution of the extended solvers against refinement-union oracle",
+        text="For every tree shape with arbitrary arities up to the bound z3 decides, on a declarative clade specification, that every tree produced "
+             "by binarize is a refinement, that none is repeated and that none is missing (spec AND NOT(outputs) unsat); names, colours and leaf data "
+             "are preserved. End to end the extended solvers run on symbolic costs and z3 proves the optimum no dearer than any solution of any "
+             "refinement pair generated from the SAT models.",
+        design="5/C08", engine="forksym"),
+    "C09": dict(
+        technique="paired bounded symbolic execution (affine costs, z3 LIA) of original vs. transformed input; clade-indexed set comparison; sampled fresh-process determinism",
+        text="Original and transformed input (children reordered, everything renamed, outgroup added, run again, costs x k, one cost + symbolic "
+             "delta) run on the same symbolic cost vector in one exploration; z3 proves equality / k-multiple / monotonicity of the minima for "
+             "every cost vector of every joint path and the 'all' results are equal as naming-independent sets. Hash-seed determinism is sampled "
+             "in fresh interpreters on solver-produced cost vectors (stated).",
+        design="5/C09", engine="forksym"),
     "C07": dict(
         technique="symbolic execution of reconcile_lca / reconcile_thl(hgt=inf) + z3 LIA proof of minimality and uniqueness against all transfer-free reconciliations",
         text="For every structural input in the bound, reconcile_lca equals an independent LCA mapping and z3 proves, for ALL dup, floss >= 0 and "
